@@ -69,11 +69,11 @@ def q_of(table, name, mode):
     return t["Qbb"]
 
 
-def dbd_line(table, name, level, mode, window=None, tol=0.003):
+def dbd_line(table, name, level, mode, window=None, tol=0.003, work_bound=0):
     e1, e2, w = (window[0], window[1], 1) if window else (0.0, 4.3, 0)
     Q = q_of(table, name, mode)
-    return "D %s %d %d %.17g %.17g %d %.17g %d %d %.17g" % (
-        name, level, mode, e1, e2, w, Q, 1 if mode in ZERO_NU else 0, 1 if name in CHAIN else 0, tol)
+    return "D %s %d %d %.17g %.17g %d %.17g %d %d %.17g %d" % (
+        name, level, mode, e1, e2, w, Q, 1 if mode in ZERO_NU else 0, 1 if name in CHAIN else 0, tol, work_bound)
 
 
 def run_specs(variant, lines, seed, n_iid, n_grid, hostile, timeout=7200, nshards=None, extra_env=None):
